@@ -176,6 +176,23 @@ add('C11', 'model_checking',
     TRUSTED + ' random.Random(seed).random() enters as the choice table floor(r_p * n); equality across CPython versions is not exercised (DESIGN 7).',
     'TLA+ spec + TLC exhaustive check + TLC-evaluated oracle on real runs in all modes', 'DESIGN.md 5/C11')
 
+add('C14', 'model_checking',
+    'Discovery.tla transcribes find_test_files_ / walk_with_symlinks / find_test_files / find_suites over a tree given as '
+    'entries plus name facts (identifier, ignored, pattern matches, sort rank - measured with re in Python); TLC checks the '
+    'definitions on every parent-closed subset of a 16-entry universe x root lists (DiscoveryMC.tla). Real runs on trees '
+    'from a 32-entry universe x default / alternative patterns x repeated / nested / reversed roots (also below ignored '
+    'directories) x -m lists x -s packages, each materialised on tmpfs in two creation orders with every .py file logging '
+    'its own import: TLC compares the import sequence with Found / Imported (extra, missing, twice, filtered-but-imported, order).',
+    TRUSTED + ' With overlapping roots a file has one module name per root; a file is treated as filtered out only if none of its names is accepted.',
+    'TLA+ spec + TLC check of the definitions + TLC-evaluated oracle on real runs over generated trees', 'DESIGN.md 5/C14')
+add('C15', 'model_checking',
+    'Discovery.tla defines Searched / OrphansAll (safety envelope) / OrphansCore (completeness) / Removed (transcription of '
+    'remove_stale_bytecode); TLC checks OrphansCore <= Removed <= OrphansAll, sources\' siblings / __pycache__ / --ignore_dir '
+    'never touched, keep => nothing, on every parent-closed subset of the universe. Real --list-tests runs on trees over 19 '
+    'file names (orphans, look-alikes, a directory named like a source) x 15 directories x 7 root lists x {none, -k, '
+    '--usecompiled} x --path / --test-path, with the file system snapshotted (paths, hashes) before and after; TLC judges the diff.',
+    TRUSTED, 'TLA+ spec + TLC check of the definitions + TLC-evaluated oracle on file-system diffs of real runs', 'DESIGN.md 5/C15')
+
 NOT_YET = {
 }
 
